@@ -38,7 +38,8 @@ TRUSTED_BASE = [
     "coq/Extract/driver.ml (parsing, Z<->decimal, canonical printing)",
     "harness/*.py: case generators, canonical form, differ, cache key; Python oracle (cross-checked against Exec.v via the MON line on every stream)",
     "the reading of the English property into Model/Exec.v and the statements in Props/",
-    "hand-written model: agreement with /repo is observed on the generated cases only (DESIGN.md 10)",
+    "harness/translate.py (Python ast -> Gallina text, fail-closed; its reading of Python for the generators is GenLang*.run, for the functions the result monad with Python's exceptions; fuel policies; textually compared preambles and constructors; textual pins) -- DESIGN.md 7.1a, 9",
+    "hand-written model: tied to /repo by the translation obligations of this property (coq/Gen/*.v, re-generated and re-checked on this run) and, for what is not translated (DESIGN.md 7.1a end, 10), by agreement on the generated cases only",
 ]
 
 
